@@ -17,20 +17,114 @@ QUICK_RULES = ['trypsin', 'trypsin', 'lysc', 'asp-n', 'chymotrypsin high specifi
 LOOKBEHIND = {'pepsin ph1.3', 'pepsin ph2.0', 'staphylococcal peptidase i', 'proline endopeptidase', 'thrombin',
               'factor xa', 'enterokinase', 'granzyme b'} | {f'caspase {k}' for k in range(1, 11)}
 
-MODES = ['base', 'base', 'nc', 'nf', 'startnf', 'sec', 'multi', 'rules', 'exc', 'collapse', 'rules']
+MODES = ['base', 'base', 'nc', 'nf', 'startnf', 'sec', 'multi', 'rules', 'exc', 'collapse', 'rules',
+         'adj', 'stop', 'sect', 'w2f', 'lowmass', 'stop']
+
+
+def tryptic_protein(r, n_pep, alphabet=refgen.PEPTIDE_AAS, plen=(3, 8)):
+    """concatenation of n_pep peptides that each end in K or R"""
+    return ''.join(''.join(r.choice(alphabet) for _ in range(r.randrange(*plen))) + r.choice('KR') for _ in range(n_pep))
+
+
+def stop_reference(r, coding):
+    """prefix + ATG + peptide region + STOP1 + in-frame read-through region with several tryptic peptides + STOP2 + suffix;
+    coding: CDS annotated up to STOP1 (the read-through region is the 3'UTR)."""
+    b = refgen.Builder(r)
+    prefix = ''.join(r.choice('CGT') for _ in range(r.randrange(3, 10)))        # no ATG possible without A
+    p1 = 'M' + tryptic_protein(r, r.randrange(1, 4))
+    p2 = tryptic_protein(r, r.randrange(2, 5))
+    stop1 = r.choice(['TAA', 'TAA', 'TAG', 'TGA'])
+    cds = refgen.encode(r, p1)
+    tail = refgen.encode(r, p2) + r.choice(refgen.STOPS) + refgen.rand_dna(r, r.randrange(3, 9))
+    seq = prefix + cds + stop1 + tail
+    sp = len(prefix) + len(cds)
+    if coding:
+        t = b.add_gene(seq, r.choice([1, -1]), r.randrange(1, 3), True, len(prefix), sp + 3, (), (), p1)
+    else:
+        t = b.add_gene(seq, r.choice([1, -1]), r.randrange(1, 3), False)
+    return b.finish(), t, sp
+
+
+def stop_variants(r, ref, t, sp):
+    """variants aimed at the stop codon at transcript position sp"""
+    seq = t.seq(ref.chroms['chr1'])
+    kind = r.choice(['snv', 'pair', 'pair', 'mnv', 'mnv', 'del', 'ins'])
+    bases = 'ACGT'
+    out = []
+    if kind == 'snv':
+        k = sp + r.randrange(3)
+        out.append(cvgen.snv_at(ref, t, seq, k, r.choice([x for x in bases if x != seq[k]])))
+    elif kind == 'pair':
+        k = sp + r.randrange(2)
+        if seq[sp:sp + 3] == 'TAA' and r.random() < 0.6:
+            k = sp + 1; alts = ('G', 'G')                 # each alone keeps a stop (TGA / TAG), together TGG
+        else:
+            alts = tuple(r.choice([x for x in bases if x != seq[k + j]]) for j in range(2))
+        out += [cvgen.snv_at(ref, t, seq, k, alts[0]), cvgen.snv_at(ref, t, seq, k + 1, alts[1])]
+    elif kind == 'mnv':
+        for _ in range(10):
+            v = cvgen.small_variant(r, ref, t, seq, sp + r.randrange(-1, 2), 'MNV')
+            if v:
+                out.append(v); break
+    elif kind == 'del':
+        v = cvgen.small_variant(r, ref, t, seq, sp - 1 + r.randrange(0, 2), 'DEL')
+        if v:
+            out.append(v)
+    else:
+        v = cvgen.small_variant(r, ref, t, seq, sp + r.randrange(-1, 3), 'INS')
+        if v:
+            out.append(v)
+    # the pair must lie in one exon with contiguous gene coordinates
+    for v in out:
+        if v['gend'] - v['gstart'] != v['end'] - v['start']:
+            return []
+    return out
+
+
+def add_adjacent_partners(r, ref, t, vs):
+    """for some variants add a directly adjacent variant of the same class (merged into one MNV by --max-adjacent-as-mnv 2)"""
+    seq = t.seq(ref.chroms['chr1'])
+    out = list(vs)
+    for v in vs:
+        if r.random() > 0.7:
+            continue
+        pos = v['end']
+        if pos >= len(seq) - 4:
+            continue
+        if v['type'] == 'SNV':
+            w = cvgen.small_variant(r, ref, t, seq, pos, 'SNV')
+        elif v['type'] == 'INDEL':
+            w = cvgen.small_variant(r, ref, t, seq, pos, r.choice(['INS', 'DEL']))
+        else:
+            continue
+        if w and not any(x['start'] < w['end'] and w['start'] < x['end'] for x in out):
+            out.append(w)
+    return out
 
 
 def make_case(r, mode, work, idx, tier):
     kw = dict(n_genes=1, coding_p=0.8, max_exons=3, aa_len=(14, 30), nc_len=(50, 110))
     if mode == 'nf':
         kw.update(nf_p=0.6, coding_p=1.0)
-    if mode == 'sec':
+    if mode in ('sec', 'sect'):
         kw.update(sec_p=0.8, coding_p=1.0)
     if mode == 'multi':
         kw.update(n_genes=3, isoform_p=0.5)
     if mode == 'nc':
         kw.update(coding_p=0.0)
-    ref = refgen.random_reference(r, **kw)
+    stop_at = None
+    if mode == 'stop':
+        ref, t0, stop_at = stop_reference(r, coding=r.random() < 0.4)
+    elif mode == 'lowmass':
+        # glycine / alanine rich proteins: peptides whose mass is far below what their length suggests
+        b = refgen.Builder(r)
+        prot = 'M' + tryptic_protein(r, r.randrange(3, 7), alphabet='GGGGGAAAS' + r.choice(['', 'T', 'V', 'GA']), plen=(4, 14))
+        u5 = r.randrange(3, 10)
+        seq = refgen.rand_dna(r, u5) + refgen.encode(r, prot) + r.choice(refgen.STOPS) + refgen.rand_dna(r, r.randrange(6, 15))
+        b.add_gene(seq, r.choice([1, -1]), r.randrange(1, 3), True, u5, u5 + 3 * len(prot) + 3, (), (), prot)
+        ref = b.finish()
+    else:
+        ref = refgen.random_reference(r, **kw)
     if mode == 'startnf':
         for t in ref.txs.values():
             if t.coding and r.random() < 0.7:
@@ -38,13 +132,29 @@ def make_case(r, mode, work, idx, tier):
     d = os.path.join(work, f'c{idx}')
     paths = ref.write(d)
     allv, txrecs = [], []
+    secmap = {}
     for t in ref.txs.values():
         if mode == 'multi' and r.random() < 0.3:
             continue
-        vs = cvgen.random_small_variants(r, ref, t, r.randrange(1, 6), dense=r.random() < 0.5)
+        vs = cvgen.random_small_variants(r, ref, t, r.randrange(1, 6) if mode != 'stop' else r.randrange(0, 3), dense=r.random() < 0.5)
+        if mode == 'stop':
+            sv = stop_variants(r, ref, t, stop_at)
+            vs = sv + [v for v in vs if not any(x['start'] <= v['end'] and v['start'] <= x['end'] for x in sv)]
+        if mode == 'adj':
+            vs = add_adjacent_partners(r, ref, t, vs)
+        if mode == 'sect' and t.sec:
+            # a variant ending right at the Sec codon plus one further upstream
+            seq = t.seq(ref.chroms[ref.genes[t.gene].chrom])
+            sp = t.sec[0]
+            cand = [cvgen.small_variant(r, ref, t, seq, sp - 1, 'SNV'),
+                    cvgen.small_variant(r, ref, t, seq, r.randrange(max(t.cds_start + 3, sp - 18), sp - 2), r.choice(['SNV', 'SNV', 'INS', 'DEL']))
+                    if sp - 2 > max(t.cds_start + 3, sp - 18) else None]
+            cand = [v for v in cand if v]
+            vs = cand + [v for v in vs if not any(x['start'] <= v['end'] and v['start'] <= x['end'] for x in cand)]
         if vs:
             allv += vs
             txrecs.append(dict(tx=cvgen.tx_record(ref, t), vars=[cvgen.var_record(v) for v in vs]))
+            secmap[t.id] = cvgen.sec_ids(ref, t)
     if not allv:
         return None
     g = os.path.join(d, 'v.gvf')
@@ -53,6 +163,15 @@ def make_case(r, mode, work, idx, tier):
     if mode == 'rules':
         rules = QUICK_RULES if tier == 'quick' else ALL_RULES
     cfg = cvgen.rand_cfg(r, rules=rules, exc_p=0.6 if mode == 'exc' else 0)
+    if mode in ('adj', 'stop'):
+        cfg['max_adj'] = 2
+    if mode == 'sect':
+        cfg['sect'] = True
+    if mode == 'w2f':
+        cfg['w2f'] = True
+    if mode == 'lowmass':
+        cfg['min_mw'] = f"{r.randrange(250, 1200)}.00005"
+        cfg['max_len'] = 25
     a = dict(paths)
     a.update(cvgen.cli_cfg(cfg))
     a.update(input_path=[g], output_path=os.path.join(d, 'out.fasta'), max_variants_per_node=[-1],
@@ -60,7 +179,7 @@ def make_case(r, mode, work, idx, tier):
     if mode == 'collapse':
         a.update(min_nodes_to_collapse=r.choice([0, 1, 3]), naa_to_collapse=r.choice([1, 2, 5]))
     case = dict(txs=txrecs, cfg=cvgen.spec_cfg(cfg), proteome=cvgen.proteome_record(ref))
-    return dict(mode=mode, args=a, case=case, cfg=cfg, gtf=ref.gtf_lines(), chroms=ref.chroms,
+    return dict(mode=mode, args=a, case=case, cfg=cfg, gtf=ref.gtf_lines(), chroms=ref.chroms, secmap=secmap,
                 variants=[(v['tx'], v['start'], v['ref'], v['alt'], v['id']) for v in allv])
 
 
@@ -117,7 +236,7 @@ def parse_sets(v):
 
 def campaign(rep, tier, work, salt='cv'):
     r = env.rng(salt)
-    n = 330 if tier == 'quick' else 9000
+    n = 510 if tier == "quick" else 13600
     items = []
     for i in range(n):
         it = make_case(r, MODES[i % len(MODES)], work, i, tier)
@@ -421,8 +540,11 @@ def check_c03(tier):
         for h, s in x['fasta']:
             for e in h.split(' '):
                 f = e.split('|')
-                ids = [y for y in f[1:-1] if not re.fullmatch(r'ORF\d+', y)]
-                entries.append(dict(tx=idx.get(f[0], 0), ids=ids, seq=list(s), label=e))
+                toks = [y for y in f[1:-1] if not re.fullmatch(r'ORF\d+', y)]
+                ids = [y for y in toks if not y.startswith(('SECT-', 'W2F-'))]
+                sect = [it.get('secmap', {}).get(f[0], {}).get(y, -1) for y in toks if y.startswith('SECT-')]
+                w2f = [int(y[4:]) for y in toks if y.startswith('W2F-')]
+                entries.append(dict(tx=idx.get(f[0], 0), ids=ids, sect=sect, w2f=w2f, seq=list(s), label=e))
         c = dict(txs=it['case']['txs'], cfg=it['case']['cfg'], entries=entries)
         cases.append(c); keep.append((it, x, len(entries)))
     verdicts = tlc_cases('HeaderOracle', cases, work, 'hdr', rep)
@@ -440,17 +562,16 @@ def check_c03(tier):
             labels = re.findall(r'"([^"]+\|[^"]*)"', v)
             ro = replay_obj(it, [s for _, s in x['fasta']], [], [])
             ro['headers'] = x['fasta']
-            if kind == 'missing_frameshift':
+            if kind == 'context_witness' and (it['cfg']['rule'] in LOOKBEHIND or it['cfg']['exc']):
+                rep.violation(known_key(it, 'context'), f"header entries {labels[:4]} are not witnesses (context-dependent rule)", ro)
+            elif kind == 'missing_frameshift':
                 rep.violation('header_omits_upstream_frameshift', f"header entries {labels[:4]} omit a frameshifting variant that is "
                               f"needed to produce the peptide", ro)
             elif kind == 'duplicate_entry':
                 rep.violation(f"dup:{key}", "a header entry string occurs twice in one FASTA", ro)
             else:
-                ctxk = 'context' if (it['cfg']['rule'] in LOOKBEHIND or it['cfg']['exc']) else None
                 if it['mode'] == 'collapse' and it['args'].get('naa_to_collapse', 5) < 2:
                     rep.violation(known_key(it, 'collapse_naa1'), f"header entries {labels[:4]} are not witnesses (--naa-to-collapse 1)", ro)
-                elif ctxk:
-                    rep.violation(known_key(it, 'context'), f"header entries {labels[:4]} are not witnesses (context-dependent rule)", ro)
                 else:
                     rep.violation(f"witness:{key}", f"header entries {labels[:4]} are not truthful witnesses: applying exactly the named "
                                   f"variants does not yield the peptide (mode {it['mode']}, rule {it['cfg']['rule']})", ro)
@@ -469,6 +590,8 @@ def label_tokens(entry):
             out.append('W2F')
         elif re.fullmatch(r'ORF\d+', f):
             out.append('ORF')
+        elif re.match(r'[12]-\D', f):
+            out.append(f[2:])        # donor- / acceptor-side variant of a fusion entry
         else:
             out.append(f)
     return out
@@ -476,6 +599,31 @@ def label_tokens(entry):
 
 def fasta_case(fa):
     return [dict(seq=list(s), labels=[label_tokens(e) for e in h.split(' ')]) for h, s in fa]
+
+
+def corpus_sect_case(work):
+    """Selenoprotein MRIPWALETPPFYU with a deletion anchored on the last base of the Sec codon."""
+    path = os.path.join(env.VERIF, 'corpus', 'C05_sect_reference.json')
+    if not os.path.exists(path):
+        return None
+    rp = json.load(open(path))['replay']
+    d = os.path.join(work, 'corpus_sect'); os.makedirs(d, exist_ok=True)
+    gtf = rp['gtf']; chrom = rp['chroms']['chr1']
+    open(os.path.join(d, 'annotation.gtf'), 'w').write('\n'.join(gtf) + '\n')
+    open(os.path.join(d, 'genome.fasta'), 'w').write('>chr1\n' + chrom + '\n')
+    open(os.path.join(d, 'proteome.fasta'), 'w').write('>ENSP00001.1|ENST00001.1|ENSG00001.1|OTTHUMG0|-|GN00001|14\nMRIPWALETPPFYU\n')
+    txid, start, rf, alt, vid = rp['variants'][0]
+    g = os.path.join(d, 'v.gvf')
+    cvgen.write_gvf(g, [dict(gene='ENSG00001.1', tx=txid, gstart=start, id=vid, ref=rf, alt=alt)])
+    cfg = dict(rule='trypsin', exc='', misc=1, min_len=2, max_len=16, min_mw='0.00005')
+    a = dict(genome_fasta=os.path.join(d, 'genome.fasta'), annotation_gtf=os.path.join(d, 'annotation.gtf'),
+             proteome_fasta=os.path.join(d, 'proteome.fasta'))
+    a.update(cvgen.cli_cfg(cfg))
+    a.update(input_path=[g], output_path=os.path.join(d, 'out.fasta'), max_variants_per_node=[-1], additional_variants_per_misc=[-1])
+    seq = chrom[4:62]
+    tx = dict(seq=list(seq), coding=True, orfStart=4, orfEnd=46, startNF=False, endNF=False, sec=[43], id=txid)
+    return dict(mode='corpus', args=a, cfg=cfg, gtf=gtf, chroms=rp['chroms'], variants=rp['variants'],
+                case=dict(txs=[dict(tx=tx, vars=[])], cfg=cvgen.spec_cfg(cfg), proteome=[]))
 
 
 def check_c05(tier):
@@ -488,9 +636,9 @@ def check_c05(tier):
                        "enumeration); complexity limits off; non-trivial = the relaxed run adds at least one peptide")
     work = env.scratch('c05_')
     r = env.rng('c05')
-    items = [it for it in campaign(rep, tier, work) if it['mode'] in ('base', 'nc', 'sec', 'multi', 'startnf', 'nf')]
+    items = [it for it in campaign(rep, tier, work) if it['mode'] in ('base', 'nc', 'sec', 'multi', 'startnf', 'nf', 'sect', 'adj', 'stop')]
     r.shuffle(items)
-    items = items[:40 if tier == 'quick' else 1200]
+    items = items[:56 if tier == 'quick' else 1600]
     jobs_, meta = [], []
 
     def add(it, kind, a_args, b_args, a_cfg, added=''):
@@ -512,8 +660,8 @@ def check_c05(tier):
         if cfg['min_mw'] != '0.00005':
             add(it, 'minmw', a, dict(a, min_mw='0.00005', **outb('minmw')), sc)
         add(it, 'w2f', a, dict(a, w2f_reassignment=True, **outb('w2f')), sc)
-        if it['mode'] == 'sec':
-            add(it, 'sect', a, dict(a, selenocysteine_termination=True, **outb('sect')), sc)
+        if it['mode'] in ('sec', 'sect'):
+            add(it, 'sect', dict(a, selenocysteine_termination=False),  dict(a, selenocysteine_termination=True, **outb('sect')), sc)
         add(it, 'novelorf', a, dict(a, coding_novel_orf=True, **outb('novelorf')), sc)
         # one variant record less
         gvf = a['input_path'][0]
@@ -549,6 +697,34 @@ def check_c05(tier):
         add(fake, 'morefiles', dict(A, input_path=[callrun.G[g] for g in sub], output_path=os.path.join(dd, f'c{j}a.fasta')),
             dict(A, input_path=[callrun.G[g] for g in sub] + [callrun.G[('fusion', 'circ', 'redi', 'alts')[j]]],
                  output_path=os.path.join(dd, f'c{j}b.fasta')), dcfg)
+    # regression input of the recorded finding "sect_drops_reference_sec_truncation" (corpus/C05_sect_reference.json)
+    cit = corpus_sect_case(work)
+    if cit:
+        ca = dict(cit['args'])
+        add(cit, 'sect', dict(ca, selenocysteine_termination=False), dict(ca, selenocysteine_termination=True), cit['case']['cfg'])
+    # synthetic structural inputs: a donor transcript with two fusions, a circRNA and SNVs downstream of the first breakpoint,
+    # other transcripts with SNVs; every record is left out in turn (one more record must only add peptides that name it)
+    scfg = cvgen.spec_cfg(dict(rule='trypsin', exc='', misc=1, min_len=4, max_len=25, min_mw='0.00005'))
+    for si, inp in enumerate(callrun.synthetic_inputs(tier, work, 'C07')):
+        sd = os.path.join(work, f'struct{si}'); os.makedirs(sd, exist_ok=True)
+        full = dict(inp['ref'], **inp['opts'])
+        full.update(cleavage_rule='trypsin', cleavage_exception=None, max_length=25, max_variants_per_node=[-1],
+                    additional_variants_per_misc=[-1], input_path=list(inp['files']), output_path=os.path.join(sd, 'full.fasta'))
+        fakes = dict(mode='struct', cfg=dict(rule='trypsin', exc=''), gtf=open(inp['ref']['annotation_gtf']).read().splitlines(),
+                     chroms=None, variants=[open(f).read() for f in inp['files']])
+        for fi, f in enumerate(inp['files']):
+            lines = open(f).read().splitlines(keepends=True)
+            recs = [j for j, l in enumerate(lines) if not l.startswith('#')]
+            if fi == 0 and tier == 'quick':
+                recs = r.sample(recs, min(len(recs), 5))
+            for j in recs:
+                vid = lines[j].split('\t')[2]
+                f2 = os.path.join(sd, f'less_{fi}_{j}.gvf')
+                open(f2, 'w').write(''.join(l for jj, l in enumerate(lines) if jj != j))
+                files2 = [x if k != fi else f2 for k, x in enumerate(inp['files'])]
+                if len(recs) == 1 and all(l.startswith('#') for jj, l in enumerate(lines) if jj != j):
+                    files2 = [x for k, x in enumerate(inp['files']) if k != fi]
+                add(fakes, 'variant', dict(full, input_path=files2), full, scfg, added=vid)
     nj = env.NCPU
     res = jobs.run_jobs('run_cv_batch.py', [dict(jobs=jobs_[k::nj]) for k in range(nj)], timeout=3400)
     flat = [None] * len(jobs_)
@@ -570,9 +746,12 @@ def check_c05(tier):
         if kind == 'morefiles':
             # attribution: the extra peptides must name a record of the added file -> checked as subset only
             kind2 = 'restrict'
-            cases.append(dict(kind='restrict', a=m['a'], b=m['a'], outA=fasta_case(xb['fasta']), outB=fasta_case(xa['fasta']), added=''))
+            cases.append(dict(kind='restrict', a=m['a'], b=m['a'], outA=fasta_case(xb['fasta']), outB=fasta_case(xa['fasta']), added='',
+                              txs=[]))
         else:
-            cases.append(dict(kind=kind, a=m['a'], b=m['a'], outA=fasta_case(xa['fasta']), outB=fasta_case(xb['fasta']), added=m['added']))
+            txs = [t['tx'] for t in m['it']['case']['txs']] if m['it'].get('case') else []
+            cases.append(dict(kind=kind, a=m['a'], b=m['a'], outA=fasta_case(xa['fasta']), outB=fasta_case(xb['fasta']), added=m['added'],
+                              txs=txs if kind == 'sect' else []))
         grew = len({s for _, s in xb['fasta']} - {s for _, s in xa['fasta']}) > 0
         info.append((key, m, grew, xa, xb))
     verdicts = tlc_cases('MonotoneTrace', cases, work, 'mono', rep)
@@ -590,7 +769,9 @@ def check_c05(tier):
             ro = dict(kind=m['kind'], verdict=kd, peptides=peps, a_args={kk: str(v2) for kk, v2 in m['a_args'].items()},
                       b_args={kk: str(v2) for kk, v2 in m['b_args'].items()}, gtf=m['it'].get('gtf'), chroms=m['it'].get('chroms'),
                       variants=m['it'].get('variants'))
-            if rule in LOOKBEHIND or exc:
+            if kd == 'lost_sect_reference':
+                rep.violation('sect_drops_reference_sec_truncation', what, ro)
+            elif rule in LOOKBEHIND or exc:
                 rep.violation(f"context:{rule}:{exc}", what, ro)
             else:
                 rep.violation(f"mono:{key}:{kd}", what, ro)
